@@ -220,6 +220,15 @@ ADDED10 = {   # round 10
  "C19": "; one text under several parsing regimes",
  "C20": "; calls that differ only in ignore_error",
 }
+ADDED11 = {   # round 11
+ "C01": "; two Transforms of one Schema alive at once (RawRecord after the other's Reads)",
+ "C13": "; EDI elements filled from defaults under one template / context scripts",
+ "C15": "; external property names differing only in case",
+ "C17": "; a javascript_with_context case probed beyond the cache capacity",
+ "C20": "; _node of legacy csv / fixed-length records",
+}
+for _p, _t in ADDED11.items():
+    CHECKS[_p]["technique"] += _t
 for _p, _t in ADDED10.items():
     CHECKS[_p]["technique"] += _t
 for _p, _t in ADDED9.items():
